@@ -566,6 +566,28 @@ class StrEval:
                     v = self.prog.const(r[2], r[1])
                     if isinstance(v, str):
                         return Lit(v)
+                    from .pysrc import CallValue as _CallValue
+
+                    if not isinstance(v, (Unknown, _CallValue)):
+                        return ("const", v)
+                    # a module-level template built by a string function of constants (`textwrap.dedent("""...""")`, a join of
+                    # constant lines): evaluated where it is defined
+                    if isinstance(r[2], ast.Call) and getattr(self, "_modlevel_depth", 0) < 3:
+                        from .types import FCtx as _FCtx
+
+                        self._modlevel_depth = getattr(self, "_modlevel_depth", 0) + 1
+                        try:
+                            mfc = _FCtx(fc.fn, fc.selfcls) if fc.module is r[1] else None
+                            if mfc is None:
+                                import copy as _copy
+
+                                mfc = _copy.copy(fc)
+                                mfc.module = r[1]
+                            mv = self.eval(r[2], mfc, {})
+                        finally:
+                            self._modlevel_depth -= 1
+                        if isinstance(mv, S):
+                            return mv
                     if not isinstance(v, Unknown):
                         return ("const", v)
             return ("opaque", e)
@@ -957,6 +979,11 @@ class StrEval:
                             return Star(item)
                         return alt([EPS, cat([item, Star(cat([sep, item]))])])
                     lv = self.eval(a, fc, env)
+                    if not (isinstance(lv, tuple) and lv and lv[0] in ("list", "tuple")) and isinstance(a, (ast.Name, ast.Attribute)):
+                        # a module- or class-level table of constant lines
+                        cv = self.prog.const(a, fc.module, None, fc.selfcls) if fc.module is not None else None
+                        if isinstance(cv, (tuple, list)) and cv and all(isinstance(x, str) for x in cv):
+                            return Lit(sep.s.join(cv))
                     if isinstance(lv, tuple) and lv and lv[0] in ("list", "tuple") and all(isinstance(x, S) for x in lv[1]):
                         out = []
                         for i, x in enumerate(lv[1]):
@@ -994,6 +1021,13 @@ class StrEval:
             v = self.prog.const(e, fc.module)
             if isinstance(v, str):
                 return Lit(v)
+        if fn in ("textwrap.dedent", "dedent", "inspect.cleandoc") and len(e.args) == 1 and not e.keywords:
+            inner = self.eval(e.args[0], fc, env)
+            if isinstance(inner, Lit):
+                import inspect as _insp
+                import textwrap as _tw
+
+                return Lit(_tw.dedent(inner.s) if fn.endswith("dedent") else _insp.cleandoc(inner.s))
         if fn in ("escape", "saxutils.escape", "xml.sax.saxutils.escape") and e.args:
             inner = self._render(e.args[0], fc, env)
             kind = "text"
